@@ -418,6 +418,12 @@ build_chunk_corpus(int T)
 				    (!(ALL[a] == 1 || ALL[c] == 1) ||
 				        (var != 0 && var != 7)))
 					continue;
+				if (T && (ALL[a] == 255 || ALL[c] == 255) && var != 0 &&
+				    var != 3 && var != 4 && var != 7)
+					continue;
+				if (T && ALL[a] == 255 && ALL[c] == 255 && var != 0 &&
+				    var != 7)
+					continue;
 				v.sz[0] = ALL[a];
 				v.sz[1] = ALL[c];
 				add_stream_family(&v);
@@ -427,11 +433,14 @@ build_chunk_corpus(int T)
 			for (int a = 0; a < 6; a++)
 				for (int c = 0; c < 6; c++)
 					for (int d = 0; d < 6; d++) {
-						// thorough: all 216, but the 255-byte
-						// chunks only in the plain variants
+						// thorough: all 216 size triples
 						int big = (ALL[a] == 255) + (ALL[c] == 255) +
 						    (ALL[d] == 255);
-						if (big >= 2 && var != 0 && var != 7)
+						int sum = ALL[a] + ALL[c] + ALL[d];
+						// streams with 255-byte chunks cost O(len^2)
+						// segmentations each: plain variant only (and
+						// the richest variant for the shortest ones)
+						if (big >= 1 && var != 0 && !(var == 7 && sum <= 258))
 							continue;
 						v.sz[0] = ALL[a];
 						v.sz[1] = ALL[c];
@@ -2289,12 +2298,15 @@ run_wsd(void *arg)
 // =====================================================================================
 // (c) nng_http_server + handler  <->  raw HTTP client
 // =====================================================================================
-static struct {
-	int    calls;
-	char   method[40];
-	char   uri[200];
+typedef struct hrec {
+	char    method[40];
+	char    uri[200];
 	uint8_t body[64];
-	size_t blen;
+	size_t  blen;
+} hrec;
+static struct {
+	int  calls;
+	hrec r[4];
 } HS;
 
 static void
@@ -2303,15 +2315,16 @@ h_cb(nng_http *conn, void *arg, nng_aio *aio)
 	(void) arg;
 	void  *b = NULL;
 	size_t l = 0;
+	hrec  *r = &HS.r[HS.calls < 4 ? HS.calls : 3];
 	HS.calls++;
-	snprintf(HS.method, sizeof(HS.method), "%s", nng_http_get_method(conn));
-	snprintf(HS.uri, sizeof(HS.uri), "%s", nng_http_get_uri(conn));
+	snprintf(r->method, sizeof(r->method), "%s", nng_http_get_method(conn));
+	snprintf(r->uri, sizeof(r->uri), "%s", nng_http_get_uri(conn));
 	nng_http_get_body(conn, &b, &l);
-	HS.blen = l;
-	if (l > sizeof(HS.body))
-		l = sizeof(HS.body);
+	r->blen = l;
+	if (l > sizeof(r->body))
+		l = sizeof(r->body);
 	if (l)
-		memcpy(HS.body, b, l);
+		memcpy(r->body, b, l);
 	nng_http_set_status(conn, NNG_HTTP_STATUS_OK, NULL);
 	int rv = nng_http_copy_body(conn, "ok", 2);
 	nng_aio_finish(aio, rv);
@@ -2329,10 +2342,14 @@ static int    NHC, HPER;
 static hcase *HM;
 static int    NHM;
 
-static const char *HREQ[2] = {
+static const char *HREQ[3] = {
 	"GET /c16 HTTP/1.1\r\nHost: 127.0.0.1\r\nAccept: */*\r\n\r\n",
 	"POST /c16 HTTP/1.1\r\nHost: 127.0.0.1\r\nContent-Length: 5\r\n\r\nhello",
+	// two pipelined requests on one persistent connection
+	"POST /c16 HTTP/1.1\r\nHost: 127.0.0.1\r\nContent-Length: 5\r\n\r\nhello"
+	"GET /c16/b HTTP/1.0\r\nHost: 127.0.0.1\r\n\r\n",
 };
+static const char *HREQN[3] = { "GET", "POST", "POST+GET pipelined" };
 
 // read a complete response; returns status (>0), 0 nothing/incomplete, -1 EOF
 // without a response, -2 malformed (cfail already called when report != 0)
@@ -2394,6 +2411,9 @@ http_read_response(rconn *c, int cs, int ms, int expect_ok, size_t *bodylen,
 	return st;
 }
 
+static int H_cls[4];
+static char H_dbg[400];
+
 static void
 h_case(int port, int cs, const hcase *h)
 {
@@ -2424,7 +2444,7 @@ h_case(int port, int cs, const hcase *h)
 			    "request line \"%s\" (%s): the handler was invoked with "
 			    "method \"%s\" uri \"%s\"",
 			    showb((const uint8_t *) h->mut, strlen(h->mut)), h->what,
-			    HS.method, HS.uri);
+			    HS.r[0].method, HS.r[0].uri);
 		if (st == -2)
 			CFAIL("C16:http:emitted-malformed",
 			    "request line \"%s\": malformed answer (%s): \"%s\"",
@@ -2438,32 +2458,71 @@ h_case(int port, int cs, const hcase *h)
 			    st == 0 ? "nothing within 200 ms, status" : "status", st);
 		goto done;
 	}
-	const char *emeth = h->req ? "POST" : "GET";
-	size_t      ebl   = h->req ? 5 : 0;
-	const char *sgn = (h->cut1 >= 0) ? "C16:http:segmentation" : "C16:http:valid-request";
-	if (HS.calls != 1)
-		CFAIL(sgn,
-		    "%s request cut at %d,%d: the handler ran %d time(s) (answer "
-		    "status %d %s)",
-		    emeth, h->cut1, h->cut2, HS.calls, st, why);
-	if (strcmp(HS.method, emeth) != 0 || strcmp(HS.uri, "/c16") != 0 ||
-	    HS.blen != ebl || (ebl && memcmp(HS.body, "hello", 5) != 0))
-		CFAIL(sgn,
-		    "%s request cut at %d,%d: the handler saw method \"%s\" uri "
-		    "\"%s\" body %zu bytes \"%s\"",
-		    emeth, h->cut1, h->cut2, HS.method, HS.uri, HS.blen,
-		    showb(HS.body, HS.blen < 16 ? HS.blen : 16));
-	if (st == -2 || st <= 0)
-		CFAIL("C16:http:emitted-malformed",
-		    "%s request cut at %d,%d: %s (%s): \"%s\"", emeth, h->cut1,
-		    h->cut2, st == -2 ? "malformed response" : "no response", why,
-		    showb(c.rb, c.rl < 120 ? c.rl : 120));
-	if (st != 200 || bl != 2 || c.rl != 2 || memcmp(c.rb, "ok", 2) != 0)
-		CFAIL("C16:http:emitted-malformed",
-		    "%s request cut at %d,%d: status %d Content-Length %zu, %zu body "
-		    "bytes \"%s\" instead of 200 / 2 / \"ok\"",
-		    emeth, h->cut1, h->cut2, st, bl, c.rl,
-		    showb(c.rb, c.rl < 16 ? c.rl : 16));
+	const char *sgn =
+	    (h->cut1 >= 0) ? "C16:http:segmentation" : "C16:http:valid-request";
+	static const struct {
+		const char *m, *u;
+		size_t      bl;
+	} EX[3][2] = { { { "GET", "/c16", 0 }, { NULL, NULL, 0 } },
+		{ { "POST", "/c16", 5 }, { NULL, NULL, 0 } },
+		{ { "POST", "/c16", 5 }, { "GET", "/c16/b", 0 } } };
+	int nreq = h->req == 2 ? 2 : 1;
+	for (int q = 0; q < nreq; q++) {
+		if (q > 0) {
+			rc_pump(&c);
+			vs_log("raw answer %d: %s", q, showb(c.rb, c.rl < 300 ? c.rl : 300));
+			st = http_read_response(&c, cs, 100, 1, &bl, why, sizeof(why));
+		}
+		if (HS.calls <= q)
+			snprintf(H_dbg + strlen(H_dbg), sizeof(H_dbg) - strlen(H_dbg), "%d:%d,", h->req, h->cut1);
+		if (HS.calls <= q)
+			goto done;
+		if (HS.calls <= q)
+			CFAIL(sgn,
+			    "%s cut at %d,%d: the handler ran %d time(s) instead of %d "
+			    "(answer %d: status %d %s)",
+			    HREQN[h->req], h->cut1, h->cut2, HS.calls, nreq, q, st, why);
+		const hrec *r = &HS.r[q];
+		if (strcmp(r->method, EX[h->req][q].m) != 0 ||
+		    strcmp(r->uri, EX[h->req][q].u) != 0 ||
+		    r->blen != EX[h->req][q].bl ||
+		    (r->blen && memcmp(r->body, "hello", 5) != 0))
+			CFAIL(sgn,
+			    "%s cut at %d,%d: request %d reached the handler as method "
+			    "\"%s\" uri \"%s\" body %zu bytes \"%s\"",
+			    HREQN[h->req], h->cut1, h->cut2, q, r->method, r->uri,
+			    r->blen, showb(r->body, r->blen < 16 ? r->blen : 16));
+		if (st == -2 || st <= 0)
+			CFAIL("C16:http:emitted-malformed",
+			    "%s cut at %d,%d: answer %d: %s (%s): \"%s\"", HREQN[h->req],
+			    h->cut1, h->cut2, q,
+			    st == -2 ? "malformed response" : "no response", why,
+			    showb(c.rb, c.rl < 120 ? c.rl : 120));
+		if (st != 200 || bl != 2 || c.rl < 2 || memcmp(c.rb, "ok", 2) != 0 ||
+		    (q == nreq - 1 && c.rl != 2))
+			CFAIL("C16:http:emitted-malformed",
+			    "%s cut at %d,%d: answer %d: status %d Content-Length %zu, "
+			    "%zu buffered bytes \"%s\" instead of 200 / 2 / \"ok\"",
+			    HREQN[h->req], h->cut1, h->cut2, q, st, bl, c.rl,
+			    showb(c.rb, c.rl < 16 ? c.rl : 16));
+		rc_consume(&c, 2);
+	}
+	if (HS.calls != nreq)
+		CFAIL(sgn, "%s cut at %d,%d: the handler ran %d time(s) instead of %d",
+		    HREQN[h->req], h->cut1, h->cut2, HS.calls, nreq);
+	{
+		// classification for the evidence: where did the (first) cut fall
+		size_t hl = (size_t) (strstr(HREQ[h->req], "\r\n") - HREQ[h->req]);
+		size_t he = (size_t) (strstr(HREQ[h->req], "\r\n\r\n") - HREQ[h->req]) + 4;
+		if (h->cut1 < 0)
+			H_cls[0]++;
+		else if ((size_t) h->cut1 <= hl + 1)
+			H_cls[1]++;
+		else if ((size_t) h->cut1 < he)
+			H_cls[2]++;
+		else
+			H_cls[3]++;
+	}
 done:
 	g_sfx = "";
 	rc_close(&c);
@@ -2499,7 +2558,7 @@ run_http(void *arg)
 		if (cs >= n)
 			break;
 		vs_log("http case %d: %s cut %d,%d", cs,
-		    tab[cs].mut ? tab[cs].what : (tab[cs].req ? "POST" : "GET"),
+		    tab[cs].mut ? tab[cs].what : HREQN[tab[cs].req],
 		    tab[cs].cut1, tab[cs].cut2);
 		h_case(port, cs, &tab[cs]);
 	}
@@ -2511,12 +2570,280 @@ run_http(void *arg)
 		if (g_nfail == nf + 1 && nf == 0)
 			snprintf(g_sig, sizeof(g_sig), "C16:http:control");
 	}
-	vs_outcome("http%d x%d", mode, g_nfail);
+	vs_outcome("F %s", H_dbg);
 	nng_http_server_stop(srv);
 	nng_http_server_release(srv);
 	nng_url_free(u);
 	batch_finish();
 	vh_fini();
+}
+
+// =====================================================================================
+// (d) nng_http_client / nng_http_transact  <->  raw HTTP server implemented here
+// =====================================================================================
+typedef struct ccase {
+	int         resp; // 0 Content-Length body, 1 chunked body
+	int         cut1, cut2;
+	const char *mut;  // full malformed response (NULL = valid)
+	const char *what, *slug;
+} ccase;
+static ccase *CC;
+static int    NCC;
+
+static const char *CRESP[2] = {
+	"HTTP/1.1 200 OK\r\nContent-Type: text/plain\r\nContent-Length: 5\r\n\r\nhello",
+	"HTTP/1.1 200 OK\r\nTransfer-Encoding: chunked\r\n\r\n5\r\nhello\r\n"
+	"3;x=y\r\nabc\r\n1A\r\n0\r\n\r\nABCDEFGHIJKLMNOPQRSTU\r\n0\r\nX-T: v\r\n\r\n",
+};
+static const char  *CBODY[2] = { "hello", "helloabc0\r\n\r\nABCDEFGHIJKLMNOPQRSTU" };
+
+static int
+raw_listen(int *port)
+{
+	struct sockaddr_in sa;
+	socklen_t          sl = sizeof(sa);
+	memset(&sa, 0, sizeof(sa));
+	sa.sin_family      = AF_INET;
+	sa.sin_addr.s_addr = htonl(INADDR_LOOPBACK);
+	int lfd            = socket(AF_INET, SOCK_STREAM, 0);
+	if (lfd < 0 || bind(lfd, (struct sockaddr *) &sa, sizeof(sa)) != 0 ||
+	    listen(lfd, 16) != 0 ||
+	    getsockname(lfd, (struct sockaddr *) &sa, &sl) != 0)
+		vs_fail("harness:peer", "raw server socket: %s", strerror(errno));
+	fcntl(lfd, F_SETFL, fcntl(lfd, F_GETFL) | O_NONBLOCK);
+	fcntl(lfd, F_SETFD, FD_CLOEXEC);
+	*port = ntohs(sa.sin_port);
+	return lfd;
+}
+
+static int
+aio_wait_virtual(nng_aio *aio, int ms)
+{
+	for (int t = 0;; t += 10) {
+		vs_settle();
+		if (!nng_aio_busy(aio))
+			return 1;
+		if (t >= ms)
+			return 0;
+		vs_sleep(10);
+	}
+}
+
+static int C_cls[5];
+
+static void
+c_case(nng_http_client *cli, nng_aio *aio, int lfd, int port, int cs,
+    const ccase *cc)
+{
+	rconn     c;
+	nng_http *conn = NULL;
+	char      why[200];
+	hmsg      m;
+	c.fd  = -1;
+	g_sfx = cc->slug ? cc->slug : "";
+	nng_http_client_connect(cli, aio);
+	int fd = accept_wait(lfd, 300);
+	if (fd < 0 || !aio_wait_virtual(aio, 300) || nng_aio_result(aio) != 0) {
+		if (fd >= 0)
+			close(fd);
+		vs_fail("harness:peer", "http client connect failed (case %d)", cs);
+	}
+	rc_init(&c, fd);
+	conn = nng_aio_get_output(aio, 0);
+	VH_OK(nng_http_set_uri(conn, "/x", NULL));
+	nng_http_transact(conn, aio);
+	vs_settle();
+	int rv = 0;
+	for (int t = 0; t < 10; t++) {
+		rc_pump(&c);
+		rv = http_head_strict(c.rb, c.rl, &m, why, sizeof(why));
+		if (rv != 0 || c.eof)
+			break;
+		vs_sleep(5);
+	}
+	if (rv <= 0)
+		CFAIL("C16:http:emitted-malformed",
+		    "case %d: client request head %s (%s): \"%s\"", cs,
+		    rv == 0 ? "incomplete" : "malformed", rv ? why : "",
+		    showb(c.rb, c.rl < 160 ? c.rl : 160));
+	{
+		int         cnt;
+		const char *v;
+		char        hp[40];
+		snprintf(hp, sizeof(hp), "127.0.0.1:%d", port);
+		if (strcmp(m.first, "GET /x HTTP/1.1") != 0)
+			CFAIL("C16:http:emitted-malformed",
+			    "case %d: client request line \"%s\"", cs, m.first);
+		if ((v = hfind(&m, "Host", &cnt)) == NULL || cnt != 1 ||
+		    (strcmp(v, hp) != 0 && strcmp(v, "127.0.0.1") != 0))
+			CFAIL("C16:http:emitted-malformed",
+			    "case %d: client Host header %s (x%d)", cs,
+			    v ? "does not name the dialed authority" : "missing", cnt);
+		if (c.rl != m.hdrlen)
+			CFAIL("C16:http:emitted-malformed",
+			    "case %d: %zu unexpected bytes after the request head of a "
+			    "body-less GET",
+			    cs, c.rl - m.hdrlen);
+	}
+	const char *resp = cc->mut ? cc->mut : CRESP[cc->resp];
+	rc_write_cut(&c, (const uint8_t *) resp, strlen(resp), cc->cut1, cc->cut2);
+	vs_case();
+	vs_nontrivial();
+	int done_ = aio_wait_virtual(aio, 200);
+	if (!done_) {
+		// hand the decision to the library: end of stream
+		shutdown(c.fd, SHUT_WR);
+		if (!aio_wait_virtual(aio, 300))
+			vs_fail("C16:http:client-hang",
+			    "case %d (%s): nng_http_transact still busy 300 ms after "
+			    "the server finished and closed its side",
+			    cs, cc->what);
+		if (!cc->mut)
+			CFAIL(cc->cut1 >= 0 ? "C16:http:segmentation"
+			                    : "C16:http:valid-response",
+			    "%s response cut at %d,%d: the transaction did not "
+			    "complete until the server closed (result %d)",
+			    cc->resp ? "chunked" : "plain", cc->cut1, cc->cut2,
+			    (int) nng_aio_result(aio));
+	}
+	int res = (int) nng_aio_result(aio);
+	if (cc->mut) {
+		if (res == 0) {
+			void  *b = NULL;
+			size_t l = 0;
+			nng_http_get_body(conn, &b, &l);
+			CFAIL(cc->resp ? "C16:http:bad-chunk-accepted"
+			               : "C16:http:bad-status-accepted",
+			    "malformed response (%s) \"%s\": nng_http_transact succeeds "
+			    "with status %d and a %zu-byte body",
+			    cc->what, showb((const uint8_t *) resp,
+			                  strlen(resp) < 90 ? strlen(resp) : 90),
+			    (int) nng_http_get_status(conn), l);
+		}
+		C_cls[4]++;
+		goto done;
+	}
+	const char *sgn = cc->cut1 >= 0 ? "C16:http:segmentation"
+	                                : "C16:http:valid-response";
+	if (res != 0)
+		CFAIL(sgn, "%s response cut at %d,%d: transaction fails with %s",
+		    cc->resp ? "chunked" : "plain", cc->cut1, cc->cut2,
+		    nng_strerror((nng_err) res));
+	void  *b = NULL;
+	size_t l = 0;
+	nng_http_get_body(conn, &b, &l);
+	size_t el = strlen(CBODY[cc->resp]);
+	if (nng_http_get_status(conn) != 200 || l != el ||
+	    memcmp(b, CBODY[cc->resp], el) != 0)
+		CFAIL(sgn,
+		    "%s response cut at %d,%d: status %d, body %zu bytes \"%s\" "
+		    "instead of 200 and the %zu-byte body",
+		    cc->resp ? "chunked" : "plain", cc->cut1, cc->cut2,
+		    (int) nng_http_get_status(conn), l,
+		    showb(b, l < 40 ? l : 40), el);
+	{
+		size_t sl = (size_t) (strstr(resp, "\r\n") - resp);
+		size_t he = (size_t) (strstr(resp, "\r\n\r\n") - resp) + 4;
+		C_cls[cc->cut1 < 0 ? 0 : (size_t) cc->cut1 <= sl + 1 ? 1
+		        : (size_t) cc->cut1 < he                      ? 2
+		                                                      : 3]++;
+	}
+done:
+	g_sfx = "";
+	if (conn != NULL && !nng_aio_busy(aio))
+		nng_http_close(conn);
+	rc_close(&c);
+}
+
+static void
+run_httpc(void *arg)
+{
+	(void) arg;
+	g_sfx           = "";
+	vs_tcp_grace_us = 1500;
+	vh_init(0);
+	int              port = 0;
+	int              lfd  = raw_listen(&port);
+	char             url[64];
+	nng_url         *u;
+	nng_http_client *cli;
+	nng_aio         *aio;
+	snprintf(url, sizeof(url), "http://127.0.0.1:%d/x", port);
+	VH_OK(nng_url_parse(&u, url));
+	VH_OK(nng_http_client_alloc(&cli, u));
+	VH_OK(nng_aio_alloc(&aio, NULL, NULL));
+	int per   = 12;
+	int nb    = (NCC + per - 1) / per;
+	int batch = vs_choose(VK_ENV, nb);
+	for (int k = 0; k < per; k++) {
+		int cs = batch * per + k;
+		if (cs >= NCC)
+			break;
+		vs_log("httpc case %d: %s cut %d,%d", cs, CC[cs].what, CC[cs].cut1,
+		    CC[cs].cut2);
+		c_case(cli, aio, lfd, port, cs, &CC[cs]);
+	}
+	{
+		ccase ctl = { 0, -1, -1, NULL, "control", "" };
+		c_case(cli, aio, lfd, port, 9996, &ctl);
+	}
+	vs_outcome("httpc u%d l%d h%d b%d r%d x%d", C_cls[0], C_cls[1], C_cls[2], C_cls[3],
+	    C_cls[4], g_nfail);
+	nng_aio_free(aio);
+	nng_http_client_free(cli);
+	nng_url_free(u);
+	close(lfd);
+	batch_finish();
+	vh_fini();
+}
+
+static void
+build_httpc_cases(int T)
+{
+	CC = calloc(6000, sizeof(ccase));
+	for (int r = 0; r < 2; r++) {
+		int n = (int) strlen(CRESP[r]);
+		CC[NCC++] = (ccase){ r, -1, -1, NULL, r ? "chunked" : "plain", "" };
+		for (int c = 1; c < n; c++)
+			CC[NCC++] = (ccase){ r, c, -1, NULL, r ? "chunked" : "plain", "" };
+		if (T)
+			for (int c = 1; c < n; c += 2)
+				for (int e = c + 1; e < n; e += 5)
+					if (NCC < 5900)
+						CC[NCC++] = (ccase){ r, c, e, NULL,
+							r ? "chunked" : "plain", "" };
+	}
+#define SL(line, w, g)                                                        \
+	CC[NCC++] = (ccase){ 0, -1, -1, line "\r\nContent-Length: 5\r\n\r\nhello", \
+		w, g }
+	SL("HTTP/1.1200OK", "status line without spaces", ":no-spaces");
+	SL("HTTP/1.1 200", "status line with one space only", ":one-space");
+	SL("HTTP/9.9 200 OK", "bad version", ":bad-version");
+	SL(" 200 OK", "empty version", ":bad-version");
+	SL("HTTP/1.1 abc OK", "non-numeric status", ":bad-code");
+	SL("HTTP/1.1 99 OK", "two-digit status", ":bad-code");
+	SL("HTTP/1.1 1000 OK", "four-digit status", ":bad-code");
+	SL("HTTP/1.1 2\x01" "0 OK", "control character in the status line", ":control-char");
+#undef SL
+#define CH(body, w, g)                                                          \
+	CC[NCC++] = (ccase){ 1, -1, -1,                                         \
+		"HTTP/1.1 200 OK\r\nTransfer-Encoding: chunked\r\n\r\n" body, w, g }
+	CH("5\r\nhello\r\ng\r\nabc\r\n0\r\n\r\n", "non-hex chunk size", ":nonhex");
+	CH("5x\r\nhello\r\n0\r\n\r\n", "junk after chunk size", ":nonhex");
+	CH("\r\nhello\r\n0\r\n\r\n", "empty chunk size", ":empty-size");
+	CH("5\r\nhello\r\n\r\n0\r\n\r\n", "empty chunk size line", ":empty-size");
+	CH("10000000000000000\r\nhello\r\n0\r\n\r\n", "17-digit chunk size", ":overflow");
+	CH("ffffffffffffffff\r\nhello\r\n0\r\n\r\n", "chunk size 2^64-1", ":overflow");
+	CH("5\nhello\r\n0\r\n\r\n", "LF only after the size", ":crlf");
+	CH("5\rhello\r\n0\r\n\r\n", "CR only after the size", ":crlf");
+	CH("5\r\nhelloXX0\r\n\r\n", "wrong data terminator", ":terminator");
+	CH("5\r\nhello\r\r0\r\n\r\n", "CR CR data terminator", ":terminator");
+	CH("4\r\nhello\r\n0\r\n\r\n", "data longer than its size", ":terminator");
+	CH("5;\x01\r\nhello\r\n0\r\n\r\n", "control character in the extension", ":control-char");
+	CH(" 5\r\nhello\r\n0\r\n\r\n", "space before the size", ":nonhex");
+	CH("-5\r\nhello\r\n0\r\n\r\n", "negative size", ":nonhex");
+	CH("0x5\r\nhello\r\n0\r\n\r\n", "0x prefix", ":nonhex");
+#undef CH
 }
 
 // =====================================================================================
@@ -2620,6 +2947,19 @@ build_seq_cases(ctab *t, int T)
 				ct_seq(t, 3, s);
 			}
 		}
+	}
+	if (T) {
+		// exactly one 65536-byte data frame among three
+		for (int big = NBASE_SMALL; big < NBASE; big++)
+			for (int pos = 0; pos < 3; pos++)
+				for (int a = 0; a < NBASE_SMALL; a++)
+					for (int b = 0; b < NBASE_SMALL; b++) {
+						int k = 0;
+						for (int q = 0; q < 3; q++)
+							s[q] = q == pos ? BASE[big]
+							                : BASE[k++ == 0 ? a : b];
+						ct_seq(t, 3, s);
+					}
 	}
 	// one frame-level violation in context
 	fdesc ctx[4] = { FD(OP_BIN, 1, 1), FD(OP_BIN, 0, 1), FD(OP_CONT, 1, 1),
@@ -2813,9 +3153,12 @@ build_cut_cases(ctab *t, int T)
 			w.cut1 = (int32_t) c;
 			ct_add(t, &w);
 		}
-		// two cuts: every pair inside header+1 of the first frame
+		// two cuts: every pair inside header+1 of the first frame (short
+		// sequences: every pair of offsets of the whole sequence)
 		if (T) {
 			size_t l2 = h1 + 1 < tot - 1 ? h1 + 1 : tot - 1;
+			if (tot <= 40)
+				l2 = tot - 1;
 			for (size_t c = 1; c <= l2; c++)
 				for (size_t e = c + 1; e <= l2; e++) {
 					w.cut1 = (int32_t) c;
@@ -2895,6 +3238,32 @@ build_dialer_cases(ctab *t, int T)
 	}
 }
 
+// thorough: the reference acceptor in client role over every sequence of
+// <= 2 base shapes and every single-frame violation alone / after a message
+static void
+build_dialer_seq_cases(ctab *t)
+{
+	fdesc s[MAXF];
+	for (int a = 0; a < NBASE_SMALL; a++) {
+		s[0] = BASE[a];
+		ct_seq(t, 1, s);
+		for (int b = 0; b < NBASE_SMALL; b++) {
+			s[1] = BASE[b];
+			ct_seq(t, 2, s);
+		}
+	}
+	for (int v = 0; v < NVIOL; v++) {
+		s[0] = VIOL[v];
+		s[1] = FD(OP_BIN, 1, 2);
+		ct_seq(t, 2, s);
+		s[0] = FD(OP_BIN, 1, 2);
+		s[1] = VIOL[v];
+		ct_seq(t, 2, s);
+		s[0] = FD(OP_BIN, 0, 2);
+		ct_seq(t, 2, s);
+	}
+}
+
 static void
 build_resp_cases(ctab *t, int T)
 {
@@ -2919,8 +3288,8 @@ build_resp_cases(ctab *t, int T)
 static void
 build_http_cases(int T)
 {
-	HC = calloc(8000, sizeof(hcase));
-	for (int r = 0; r < 2; r++) {
+	HC = calloc(12000, sizeof(hcase));
+	for (int r = 0; r < 3; r++) {
 		int n = (int) strlen(HREQ[r]);
 		HC[NHC++] = (hcase){ r, -1, -1, NULL, "uncut", "" };
 		for (int c = 1; c < n; c++)
@@ -2928,7 +3297,7 @@ build_http_cases(int T)
 		if (T)
 			for (int c = 1; c < n; c += 1)
 				for (int e = c + 1; e < n; e += 3)
-					if (NHC < 7990)
+					if (NHC < 11990)
 						HC[NHC++] = (hcase){ r, c, e, NULL, "2cut", "" };
 	}
 	HPER = 16;
@@ -2998,19 +3367,18 @@ main(int argc, char **argv)
 		if (strcmp(argv[i], "--replay") == 0)
 			replaying = 1;
 	build_chunk_corpus(T);
-	if (!replaying)
-		ve_run("chunk-streams", NULL, NCS, chunk_test, chunk_desc, 16);
-	vx_note("chunk",
-	    "%zu streams = valid bodies (1-3 chunks, sizes {1,2,15,16,17,255}, "
-	    "hex case, leading zero, chunk-ext, 0-2 trailer lines, max = 4096 / "
-	    "exact fit) + every single mutation (drop each CR, drop each LF, "
-	    "non-hex first/last digit, space before size, 17-digit size, "
-	    "ffffffffffffffff, FFFFFFFFFFFFFFFE, size>max, max=total-1, empty "
-	    "size, wrong CR / LF of each data terminator, data one byte long / "
-	    "short, 0x01 and 0x7f in extension / trailer, truncation); every 0-, "
-	    "1- and 2-cut segmentation of each stream (for streams rejected at "
-	    "offset c cuts are enumerated up to c+3)",
+	vx_note("chunk-corpus",
+	    "%zu streams: valid bodies (1-3 chunks, sizes {1,2,15,16,17,255}, hex "
+	    "case, leading zero, chunk-ext, 0-2 trailers, max 4096 / exact fit) + "
+	    "every single mutation; every 0/1/2-cut segmentation (streams rejected "
+	    "at offset c: cuts up to c+3)",
 	    NCS);
+	vx_note("chunk-mutations",
+	    "drop each CR; drop each LF; non-hex first/last digit; space before "
+	    "size; 17-digit size; ffffffffffffffff; FFFFFFFFFFFFFFFE; size>max; "
+	    "max=total-1; max<first; empty size; wrong CR/LF of each data "
+	    "terminator; data one byte long/short; 0x01, 0x7f in ext/trailer; "
+	    "truncation by 1, 2");
 
 	// ---- (b1) listener role ----
 	static lcfg LC[16];
@@ -3052,7 +3420,7 @@ main(int argc, char **argv)
 		ncl += LC[i].t.n;
 	}
 	// ---- (b2) dialer role ----
-	static dcfg DC[4];
+	static dcfg DC[6];
 	int         nd = 0;
 	g_mask_default = 0;
 	DC[nd]         = (dcfg){ "wsd-default", DEF, { 0 }, 6 };
@@ -3062,6 +3430,12 @@ main(int argc, char **argv)
 	if (T) {
 		DC[nd] = (dcfg){ "wsd-frag1", 1, { 0 }, 6 };
 		build_dialer_cases(&DC[nd++].t, 0);
+	}
+	if (T) {
+		build_base(0);
+		build_viol(T);
+		DC[nd] = (dcfg){ "wsd-seq", DEF, { 0 }, 12 };
+		build_dialer_seq_cases(&DC[nd++].t);
 	}
 	DC[nd] = (dcfg){ "wsd-response", DEF, { 0 }, 8 };
 	build_resp_cases(&DC[nd++].t, T);
@@ -3074,30 +3448,54 @@ main(int argc, char **argv)
 	build_http_cases(T);
 	explore("http-segmentation", run_http, (void *) 0, 20);
 	explore("http-request-line", run_http, (void *) 1, 15);
-	vx_note("websocket",
-	    "listener role %ld cases: every sequence of <=%d frames over %d "
-	    "well-formed shapes (op {bin,cont} x FIN x len {0,1,125,126}; ping/pong "
-	    "len {0,1,125}; close len {0,2,125}%s) ; %d single-frame violations "
-	    "(wrong masking on every shape, RSV1/2/3, reserved opcodes, 16-/64-bit "
-	    "length for a shorter payload, control > 125, fragmented control) "
-	    "alone / before / after %d context frames%s; 3-part message with "
-	    "ping/pong at every position; rxframe-max 100 and recv-size-max 200 "
-	    "boundaries; 1 cut at every offset of the first header%s; "
-	    "txframe-max {1,125,126,default%s} x sizes {0,1,125,126,300%s} with "
-	    "and without a racing ping. dialer role %ld cases: upgrade request "
-	    "check, 3 well-formed and 10 violating server->client sequences, "
-	    "emitted sizes, 101 response cut at every %s offset, %d malformed "
-	    "status lines.",
-	    ncl, T ? 3 : 2, NBASE_SMALL, T ? "; 65536-byte data shapes in <=2" : "",
-	    NVIOL, T ? 4 : 2, T ? " in 1-3 frame sequences" : "",
-	    T ? " (thorough: every offset of the sequence and every 2 cuts of the "
-	        "first header)"
+	// ---- (d) ----
+	build_httpc_cases(T);
+	explore("httpc-transact", run_httpc, NULL, 20);
+	// ---- (a) runs last: it takes whatever time is left (time-cut = not exhaustive)
+	if (!replaying)
+		ve_run("chunk-streams", NULL, NCS, chunk_test, chunk_desc, 16);
+	vx_note("ws-listener-role",
+	    "%ld cases: every sequence of <=%d frames over %d well-formed shapes "
+	    "(bin/cont x FIN x len {0,1,125,126}; ping/pong {0,1,125}; close "
+	    "{0,2,125})%s; %d single-frame violations alone/before/after %d "
+	    "context frames%s; 3-part message with ping/pong at every position",
+	    ncl, T ? 3 : 2, NBASE_SMALL,
+	    T ? ", 65536-byte data shapes in <=2 and as one of 3 frames" : "", NVIOL,
+	    T ? 4 : 2, T ? " in 1-3 frame sequences" : "");
+	vx_note("ws-violations",
+	    "wrong masking on every shape; RSV1/2/3 x 7 shapes; reserved opcodes "
+	    "3,B%s; 16-bit and 64-bit length form for shorter payloads; control "
+	    "frames of 126/300 bytes; fragmented control (either outcome accepted); "
+	    "continuation without start and data frame inside a message arise "
+	    "from the sequence enumeration",
+	    T ? ",7,F" : "");
+	vx_note("ws-limits-cuts-send",
+	    "rxframe-max 100 x len {99,100,101,125,126,200}; recv-size-max 200 x 13 "
+	    "fragmentations around the limit; 1 cut at every offset of the first "
+	    "header%s; txframe-max {1,125,126,default%s} x sizes {0,1,125,126,300%s} "
+	    "with/without a racing ping",
+	    T ? " (thorough: every offset of the sequence, every 2 cuts of the first "
+	        "header / of short sequences)"
 	      : "",
-	    T ? ",unlimited,65535" : "", T ? ",65535,65536,65537" : "", ncd,
-	    T ? "" : "third", NRESP_MUT);
-	vx_note("http",
-	    "GET and POST(5-byte body) with 1 cut at every offset%s (%d cases); %d "
-	    "request-line mutations against an any-method tree handler",
+	    T ? ",unlimited,65535" : "", T ? ",65535,65536,65537" : "");
+	vx_note("ws-dialer-role",
+	    "%ld cases: strict check of the emitted upgrade request; 3 well-formed "
+	    "and 10 violating server->client sequences%s; emitted sizes "
+	    "{0,1,125,126,300} x txframe-max {default,126%s}; 101 response cut at "
+	    "every %soffset; %d malformed status lines",
+	    ncd, T ? " + every sequence of <=2 base shapes and every violation in "
+	             "client role"
+	           : "",
+	    T ? ",1" : "", T ? "" : "third ", NRESP_MUT);
+	vx_note("http-server",
+	    "GET, POST(5-byte body) and POST+GET pipelined with 1 cut at every "
+	    "offset%s (%d cases); %d request-line mutations against an any-method "
+	    "tree handler, one per execution",
 	    T ? " and 2 cuts (first every offset, second every third)" : "", NHC, NHM);
+	vx_note("http-client",
+	    "nng_http_transact against a raw server: Content-Length and chunked "
+	    "responses with 1 cut at every offset%s, 8 malformed status lines, 15 "
+	    "malformed chunk streams (%d cases); emitted request checked strictly",
+	    T ? " and 2 cuts (every 2nd x every 5th offset)" : "", NCC);
 	return vx_finish();
 }
